@@ -5,7 +5,7 @@
 cd /verif; mkdir -p out; OUTF=${3:-out/benign_matrix.txt}; : > $OUTF; export OUTF
 run_one() {
   b=$1; pid=$(python3 -c "import json;print(json.load(open('/verif/benign/$b/meta.json'))['property'])")
-  r=$(VERIF_JOBS=8 tools/try_patch.sh benign/$b/patch.diff $pid 2>&1)
+  r=$(VERIF_JOBS=${MATRIX_JOBS:-8} tools/try_patch.sh benign/$b/patch.diff $pid 2>&1)
   rc=$(echo "$r" | grep -o "exit=[0-9]*" | tail -1)
   v=$(echo "$r" | grep -c "VIOLATION")
   ne=$(echo "$r" | grep -c "NOT-ENCODED:")
